@@ -684,7 +684,7 @@ def check_C08(ctx):
 
 def check_C02(ctx):
     return run_message_property(ctx, dict(
-        theorems=["C02_value_rules", "C02_field", "C02_tag", "C02_loop_is_dispatch", "C02_flat_message", "C02_every_decode_body", "C02_varint_reader", "C02_unmarshal_is_reference_decoder", "C02_exchange_records_reference", "C02_exchange_records_unmarshal", "C02_split_submessage", "C02_replace_records", "C02_packed_unpacked_reference", "C02_packed_unpacked_unmarshal", "C02_packed_split", "C02_same_meaning_records", "C02_nonminimal_varint"],
+        theorems=["C02_value_rules", "C02_field", "C02_tag", "C02_loop_is_dispatch", "C02_flat_message", "C02_every_decode_body", "C02_varint_reader", "C02_unmarshal_is_reference_decoder", "C02_exchange_records_reference", "C02_exchange_records_unmarshal", "C02_split_submessage", "C02_replace_records", "C02_packed_unpacked_reference", "C02_packed_unpacked_unmarshal", "C02_packed_split", "C02_same_meaning_records", "C02_nonminimal_varint", "C02_narrow32_records"],
         suites=lambda c: [("decv", ["decv", c.seed, _n(c, 8000, 60000)])] + fresh_suites(c, [("decv", ["decv", c.seed + 21, _n(c, 4000, 30000), ".proto:"])]),
         prop={"dec": lambda r: r["ist"] == "ok" and r["ost"] == "ok" and r["flags"].get("c02") == "ok"},
         shrink_keep=lambda rr: rr["ost"] == "ok",     # the replay stays a valid encoding (one the reference accepts)
